@@ -51,6 +51,7 @@ LEVEL = "exploration"
 TECHNIQUE = ("deterministic simulation: seeded start/stop/whenConnected/attempt-outcome/drop/prepareConnection/clock histories "
              "on a real ClientService with a simulator endpoint, SimClock and deterministic retry policy, checked against a history oracle")
 QUICK_RUNS = 32000
+USES_DEPTH = True   # thorough tier: history length bound scales with sim.depth (1..3) beyond the quick tier\'s run indices
 BATCH = 40
 RUN_WALL_LIMIT_S = 60   # the machine is shared; a run itself takes about a millisecond
 COMPONENTS = {"real": ["twisted.application.internet.ClientService", "twisted.application._client_service (automat machine, _Core, proxies)",
@@ -181,7 +182,7 @@ class Stop:
 
 def run(sim):
     prepare_mode = sim.draw_choice(["none", "sync", "deferred", "mixed"], "prepare_mode")
-    nops = sim.draw_int(8, 60, "nops")
+    nops = sim.draw_int(8, 60 * sim.depth, "nops")
     avoid = sim.draw_bool(0.75, "avoid_known") or bool(os.environ.get("VERIF_C58_AVOID_KNOWN"))
     close_on_reject = sim.draw_bool(0.5, "close_on_reject")
     # Re-entrant stopService()/whenConnected() from inside a whenConnected callback raise RuntimeError
@@ -521,7 +522,7 @@ def run(sim):
             sim.sim_time += 0.75
 
     for _ in range(nops):
-        sim.step(300)
+        sim.step(300 * sim.depth)
         pend_a = [a for a in attempts if a.live()]
         pend_p = [c for c in conns if c.pd is not None]
         closing = [c for c in conns if c.open and c.closing]
